@@ -17,6 +17,7 @@ type Config struct {
 	Preemptions    int
 	Race           bool
 	MaxDecisions   int
+	BgLowPrio      bool           // goroutines spawned by the code under test and timers run only when no harness thread can
 	Params         map[string]int // harness-visible tier parameters (h.Param)
 }
 
@@ -588,6 +589,10 @@ func (r *Run) ensureInit(pkg *ssa.Package) {
 		}()
 		th.inInit++
 		defer func() { th.inInit-- }()
+		if pol == "tolerant" {
+			runInitTolerant(th, initFn, pkg)
+			return
+		}
 		runInit(th, initFn)
 	}()
 	if !perRun {
@@ -607,6 +612,102 @@ func runInit(th *thread, fn *ssa.Function) {
 	}
 	for fr.block != nil {
 		runFrame(fr)
+	}
+}
+
+// runInitTolerant interprets a library package initialiser instruction by instruction. An
+// instruction the interpreter cannot execute (reflection, unsafe, ...) is skipped together with
+// everything that depends on its result; a package-level variable whose initialising store is
+// skipped is remembered, and touching it later fails the check (it would read as zero).
+func runInitTolerant(th *thread, fn *ssa.Function, pkg *ssa.Package) {
+	r := th.run
+	fr := &frame{th: th, fn: fn}
+	fr.env = make(map[ssa.Value]value)
+	fr.block = fn.Blocks[0]
+	fr.locals = make([]value, len(fn.Locals))
+	for i, l := range fn.Locals {
+		fr.locals[i] = zero(deref(l.Type()))
+		fr.env[l] = &fr.locals[i]
+	}
+	failed := map[ssa.Value]bool{}
+	try := func(instr ssa.Instruction) (c continuation, ok bool, why string) {
+		defer func() {
+			if p := recover(); p != nil {
+				if ap, isAbort := p.(abortPath); isAbort && ap.kind != "unsupported" && ap.kind != "internal" {
+					panic(p)
+				}
+				ok, why = false, fmt.Sprint(p)
+			}
+		}()
+		return visitInstr(fr, instr), true, ""
+	}
+	giveUp := func(from *ssa.BasicBlock, idx int) {
+		// control flow depends on a skipped value: every later store into a global is lost
+		seen := false
+		for _, b := range fn.Blocks {
+			for i, ins := range b.Instrs {
+				if b == from && i == idx {
+					seen = true
+				}
+				if !seen {
+					continue
+				}
+				if st, ok := ins.(*ssa.Store); ok {
+					if g, ok := st.Addr.(*ssa.Global); ok {
+						r.w.noteUninit(g)
+					}
+				}
+			}
+		}
+	}
+	for fr.block != nil {
+		blk := fr.block
+		instrs := executePhis(fr)
+		jumped := false
+		base := len(blk.Instrs) - len(instrs)
+		for i, instr := range instrs {
+			dep := false
+			var ops []*ssa.Value
+			for _, op := range instr.Operands(ops) {
+				if op != nil && *op != nil && failed[*op] {
+					dep = true
+				}
+			}
+			why := "depends on a skipped instruction"
+			if !dep {
+				c, ok, w := try(instr)
+				if ok {
+					if c == kReturn {
+						return
+					}
+					if c == kJump {
+						jumped = true
+						break
+					}
+					continue
+				}
+				why = w
+			}
+			if len(why) > 160 {
+				why = why[:160]
+			}
+			r.w.noteInitSkip(pkg.Pkg.Path(), fmt.Sprintf("skipped %s: %s", instr.String(), why))
+			if v, ok := instr.(ssa.Value); ok {
+				failed[v] = true
+			}
+			switch ins := instr.(type) {
+			case *ssa.Store:
+				if g, ok := ins.Addr.(*ssa.Global); ok {
+					r.w.noteUninit(g)
+				}
+			case *ssa.If, *ssa.Jump, *ssa.Return, *ssa.Panic:
+				giveUp(blk, base+i)
+				return
+			}
+		}
+		if !jumped {
+			return
+		}
 	}
 }
 
